@@ -28,7 +28,7 @@ type Mismatch struct {
 //	locks                  a lock is still held at a quiescent point      C18
 var owners = map[string][]string{
 	"alloc+":      {"C06", "C19", "C03", "C15"}, // (C15: an allocation that is still there after the cause that ends it)
-	"alloc-":      {"C06", "C03", "C19"}, // (C19: an Allocate success reports the lifetime actually in force)
+	"alloc-":      {"C06", "C03", "C19"},        // (C19: an Allocate success reports the lifetime actually in force)
 	"alloc~":      {"C06", "C03"},
 	"alloc.owner": {"C06", "C03", "C04", "C19"}, // the allocation of a 5-tuple has been replaced by another user's
 	"perm+":       {"C07", "C01", "C02", "C03", "C06"},
